@@ -157,4 +157,249 @@ theorem foldItems_inv {step : Pairs → Val → Val → Except Exc (Pairs × Tra
         exact htrans _ _ _ _ _ (hstep cur k v cur1 t1 h1)
           (foldItems_inv R hrefl htrans hstep rest cur1 _ _ h2)
 
+/-! ### the frame of one merge item, of `mergeRec`, of one defaults item, of `defaultsRec` -/
+
+theorem mergeItem_frame {fmt : Fmt}
+    {recur : (Pairs → Pairs) → Pairs → Pairs → Except Exc (Pairs × Trace)}
+    (hrec : ∀ rb c a c' t, recur rb c a = .ok (c', t) → Frame c c' t)
+    (rebuild : Pairs → Pairs) (cur : Pairs) (k v : Val) (cur' : Pairs) (t : Trace)
+    (h : mergeItem fmt recur rebuild cur k v = .ok (cur', t)) : Frame cur cur' t := by
+  unfold mergeItem at h
+  simp only [] at h
+  repeat' split at h
+  all_goals first
+    | (cases h; done)
+    | (cases h; exact Frame.write _ _ _)
+    | (cases h; exact Frame.descend ‹_› (hrec _ _ _ _ _ ‹_›))
+
+theorem mergeRec_frame (fmt : Fmt) : ∀ (fuel : Nat) (rebuild : Pairs → Pairs) (cur add cur' : Pairs) (t : Trace),
+    mergeRec fmt fuel rebuild cur add = .ok (cur', t) → Frame cur cur' t := by
+  intro fuel
+  induction fuel with
+  | zero => intro rebuild cur add cur' t h; simp [mergeRec] at h
+  | succ n ih =>
+    intro rebuild cur add cur' t h
+    simp only [mergeRec] at h
+    exact foldItems_inv Frame Frame.refl (fun _ _ _ _ _ => Frame.trans)
+      (fun c k v c' t' hs => mergeItem_frame (fun rb c a c' t h => ih rb c a c' t h) rebuild c k v c' t' hs)
+      add cur cur' t h
+
+theorem defaultsItem_frame {fmt : Fmt}
+    {recur : (Pairs → Pairs) → Pairs → Pairs → Except Exc (Pairs × Trace)}
+    (hrec : ∀ rb c a c' t, recur rb c a = .ok (c', t) → Frame c c' t)
+    (rebuild : Pairs → Pairs) (cur : Pairs) (k v : Val) (cur' : Pairs) (t : Trace)
+    (h : defaultsItem fmt recur rebuild cur k v = .ok (cur', t)) : Frame cur cur' t := by
+  unfold defaultsItem at h
+  simp only [] at h
+  repeat' split at h
+  all_goals first
+    | (cases h; done)
+    | (cases h; exact Frame.refl _)
+    | (cases h; exact Frame.write _ _ _)
+    | (cases h; exact Frame.descend ‹_› (hrec _ _ _ _ _ ‹_›))
+
+theorem defaultsRec_frame (fmt : Fmt) : ∀ (fuel : Nat) (rebuild : Pairs → Pairs) (cur add cur' : Pairs) (t : Trace),
+    defaultsRec fmt fuel rebuild cur add = .ok (cur', t) → Frame cur cur' t := by
+  intro fuel
+  induction fuel with
+  | zero => intro rebuild cur add cur' t h; simp [defaultsRec] at h
+  | succ n ih =>
+    intro rebuild cur add cur' t h
+    simp only [defaultsRec] at h
+    exact foldItems_inv Frame Frame.refl (fun _ _ _ _ _ => Frame.trans)
+      (fun c k v c' t' hs => defaultsItem_frame (fun rb c a c' t h => ih rb c a c' t h) rebuild c k v c' t' hs)
+      add cur cur' t h
+
+/-! ### defaults: existing paths keep their value; exactly the missing named paths are added -/
+
+/-- `Keeps cur cur'`: every existing (non-empty) path still exists; if its value is not a mapping
+    it is the SAME value (also when it is `none`), if it is a mapping it is still a mapping. -/
+def Keeps (cur cur' : Pairs) : Prop :=
+  ∀ p x, p ≠ [] → getPath cur p = some x →
+    ∃ x', getPath cur' p = some x' ∧ (isDict x = false → x' = x) ∧ (isDict x = true → isDict x' = true)
+
+theorem Keeps.refl (cur : Pairs) : Keeps cur cur := fun _ x _ h => ⟨x, h, fun _ => rfl, id⟩
+
+theorem Keeps.trans {a b c : Pairs} (h1 : Keeps a b) (h2 : Keeps b c) : Keeps a c := by
+  intro p x hp hx
+  obtain ⟨x1, hx1, k1, d1⟩ := h1 p x hp hx
+  obtain ⟨x2, hx2, k2, d2⟩ := h2 p x1 hp hx1
+  refine ⟨x2, hx2, ?_, fun hd => d2 (d1 hd)⟩
+  intro hnd
+  have e1 := k1 hnd
+  subst e1
+  exact k2 hnd
+
+theorem Keeps.of_eq {cur cur' : Pairs} (h : ∀ p, p ≠ [] → getPath cur p ≠ none → getPath cur' p = getPath cur p) :
+    Keeps cur cur' := by
+  intro p x hp hx
+  exact ⟨x, by rw [h p hp (by rw [hx]; simp), hx], fun _ => rfl, id⟩
+
+/-- Adding a key that was absent keeps everything. -/
+theorem Keeps.add {cur : Pairs} {fk x : Val} (habs : dictGet? cur fk = none) :
+    Keeps cur (dictSet cur fk x) := by
+  apply Keeps.of_eq
+  intro p hp hne
+  cases p with
+  | nil => exact absurd rfl hp
+  | cons k rest =>
+    have hk : k ≠ fk := by
+      intro e; subst e
+      rw [getPath_cons, habs] at hne; exact hne rfl
+    exact getPath_dictSet_ne cur fk x k rest hk
+
+theorem Keeps.descend {cur csub csub' : Pairs} {fk : Val}
+    (hget : dictGet? cur fk = some (.dict csub)) (hsub : Keeps csub csub') :
+    Keeps cur (dictSet cur fk (.dict csub')) := by
+  intro p x hp hx
+  cases p with
+  | nil => exact absurd rfl hp
+  | cons k rest =>
+    by_cases hk : k = fk
+    · subst hk
+      rw [getPath_cons, hget] at hx
+      rw [getPath_dictSet_eq]
+      cases rest with
+      | nil =>
+        simp only [getIn] at hx ⊢
+        cases hx
+        exact ⟨_, rfl, by simp [isDict], fun _ => by simp [isDict]⟩
+      | cons k2 rest2 => exact hsub (k2 :: rest2) x (by simp) hx
+    · rw [getPath_dictSet_ne cur fk _ k rest hk]
+      exact ⟨x, hx, fun _ => rfl, id⟩
+
+/-- `Adds cur cur' t`: (1) whatever exists afterwards and did not exist before lies at or below a
+    written path of the trace; (2) every written path of the trace did not exist before and
+    exists afterwards. -/
+def Adds (cur cur' : Pairs) (t : Trace) : Prop :=
+  (∀ p, p ≠ [] → getPath cur p = none → getPath cur' p ≠ none → ∃ w ∈ t, w.2 = true ∧ w.1 <+: p) ∧
+  (∀ w ∈ t, w.2 = true → getPath cur w.1 = none ∧ getPath cur' w.1 ≠ none)
+
+/-- Everything the defaults bundle needs along the fold. -/
+structure DefaultsOK (cur cur' : Pairs) (t : Trace) : Prop where
+  keeps : Keeps cur cur'
+  adds : Adds cur cur' t
+  nonempty : ∀ w ∈ t, w.1 ≠ []
+
+theorem Keeps.mono {a b : Pairs} (h : Keeps a b) {p : List Val} (hp : p ≠ [])
+    (hne : getPath a p ≠ none) : getPath b p ≠ none := by
+  cases hx : getPath a p with
+  | none => exact absurd hx hne
+  | some x =>
+    obtain ⟨x', hx', _⟩ := h p x hp hx
+    rw [hx']; simp
+
+theorem DefaultsOK.refl (cur : Pairs) : DefaultsOK cur cur [] :=
+  ⟨Keeps.refl cur, ⟨fun _ _ h1 h2 => absurd h1 h2, fun _ hw => by simp at hw⟩, fun _ hw => by simp at hw⟩
+
+theorem DefaultsOK.trans {a b c : Pairs} {t1 t2 : Trace} (h1 : DefaultsOK a b t1) (h2 : DefaultsOK b c t2) :
+    DefaultsOK a c (t1 ++ t2) := by
+  refine ⟨h1.keeps.trans h2.keeps, ⟨?_, ?_⟩, ?_⟩
+  · intro p hp ha hc
+    by_cases hb : getPath b p = none
+    · obtain ⟨w, hw, h⟩ := h2.adds.1 p hp hb hc
+      exact ⟨w, List.mem_append.mpr (Or.inr hw), h⟩
+    · obtain ⟨w, hw, h⟩ := h1.adds.1 p hp ha hb
+      exact ⟨w, List.mem_append.mpr (Or.inl hw), h⟩
+  · intro w hw hwt
+    rcases List.mem_append.mp hw with hw | hw
+    · have ⟨hn, hs⟩ := h1.adds.2 w hw hwt
+      exact ⟨hn, h2.keeps.mono (h1.nonempty w hw) hs⟩
+    · have ⟨hn, hs⟩ := h2.adds.2 w hw hwt
+      refine ⟨?_, hs⟩
+      cases ha : getPath a w.1 with
+      | none => rfl
+      | some x =>
+        have := h1.keeps.mono (h2.nonempty w hw) (by rw [ha]; simp)
+        exact absurd hn this
+  · intro w hw
+    rcases List.mem_append.mp hw with hw | hw
+    · exact h1.nonempty w hw
+    · exact h2.nonempty w hw
+
+theorem DefaultsOK.add {cur : Pairs} {fk x : Val} (habs : dictGet? cur fk = none) :
+    DefaultsOK cur (dictSet cur fk x) [([fk], true)] := by
+  refine ⟨Keeps.add habs, ⟨?_, ?_⟩, ?_⟩
+  · intro p hp ha hc
+    cases p with
+    | nil => exact absurd rfl hp
+    | cons k rest =>
+      by_cases hk : k = fk
+      · subst hk; exact ⟨([k], true), by simp, rfl, by simp⟩
+      · rw [getPath_dictSet_ne cur fk x k rest hk] at hc; exact absurd ha hc
+  · intro w hw _
+    simp only [List.mem_singleton] at hw
+    subst hw
+    refine ⟨by simp [getPath_cons, habs], ?_⟩
+    rw [getPath_dictSet_eq]; simp [getIn]
+  · intro w hw; simp only [List.mem_singleton] at hw; subst hw; simp
+
+theorem DefaultsOK.descend {cur csub csub' : Pairs} {fk : Val} {t : Trace}
+    (hget : dictGet? cur fk = some (.dict csub)) (hsub : DefaultsOK csub csub' t) :
+    DefaultsOK cur (dictSet cur fk (.dict csub')) (([fk], false) :: under fk t) := by
+  refine ⟨Keeps.descend hget hsub.keeps, ⟨?_, ?_⟩, ?_⟩
+  · intro p hp ha hc
+    cases p with
+    | nil => exact absurd rfl hp
+    | cons k rest =>
+      by_cases hk : k = fk
+      · subst hk
+        rw [getPath_cons, hget] at ha
+        rw [getPath_dictSet_eq] at hc
+        cases rest with
+        | nil => simp [getIn] at ha
+        | cons k2 rest2 =>
+          obtain ⟨w, hw, hwt, hpre⟩ := hsub.adds.1 (k2 :: rest2) (by simp) ha hc
+          refine ⟨(k :: w.1, w.2), ?_, hwt, by simpa using hpre⟩
+          apply List.mem_cons_of_mem
+          simp only [Merge.under, List.mem_map]
+          exact ⟨w, hw, rfl⟩
+      · rw [getPath_dictSet_ne cur fk _ k rest hk] at hc; exact absurd ha hc
+  · intro w hw hwt
+    rcases List.mem_cons.mp hw with e | hw
+    · subst e; cases hwt
+    · simp only [Merge.under, List.mem_map] at hw
+      obtain ⟨w', hw', rfl⟩ := hw
+      have ⟨hn, hs⟩ := hsub.adds.2 w' hw' hwt
+      have hne := hsub.nonempty w' hw'
+      constructor
+      · show getPath cur (fk :: w'.1) = none
+        rw [getPath_cons, hget]
+        exact hn
+      · show getPath (dictSet cur fk (.dict csub')) (fk :: w'.1) ≠ none
+        rw [getPath_dictSet_eq]
+        exact hs
+  · intro w hw
+    rcases List.mem_cons.mp hw with e | hw
+    · subst e; simp
+    · simp only [Merge.under, List.mem_map] at hw
+      obtain ⟨w', _, rfl⟩ := hw
+      simp
+
+theorem defaultsItem_ok {fmt : Fmt}
+    {recur : (Pairs → Pairs) → Pairs → Pairs → Except Exc (Pairs × Trace)}
+    (hrec : ∀ rb c a c' t, recur rb c a = .ok (c', t) → DefaultsOK c c' t)
+    (rebuild : Pairs → Pairs) (cur : Pairs) (k v : Val) (cur' : Pairs) (t : Trace)
+    (h : defaultsItem fmt recur rebuild cur k v = .ok (cur', t)) : DefaultsOK cur cur' t := by
+  unfold defaultsItem at h
+  simp only [] at h
+  repeat' split at h
+  all_goals first
+    | (cases h; done)
+    | (cases h; exact DefaultsOK.refl _)
+    | (cases h; exact DefaultsOK.add ‹_›)
+    | (cases h; exact DefaultsOK.descend ‹_› (hrec _ _ _ _ _ ‹_›))
+
+theorem defaultsRec_ok (fmt : Fmt) : ∀ (fuel : Nat) (rebuild : Pairs → Pairs) (cur add cur' : Pairs) (t : Trace),
+    defaultsRec fmt fuel rebuild cur add = .ok (cur', t) → DefaultsOK cur cur' t := by
+  intro fuel
+  induction fuel with
+  | zero => intro rebuild cur add cur' t h; simp [defaultsRec] at h
+  | succ n ih =>
+    intro rebuild cur add cur' t h
+    simp only [defaultsRec] at h
+    exact foldItems_inv DefaultsOK DefaultsOK.refl (fun _ _ _ _ _ => DefaultsOK.trans)
+      (fun c k v c' t' hs => defaultsItem_ok (fun rb c a c' t h => ih rb c a c' t h) rebuild c k v c' t' hs)
+      add cur cur' t h
+
 end Pypyr.C10
